@@ -139,6 +139,43 @@ def sec_tables(rep):
                 return out
 
             rep.check(f"C05/sector_mapping/post/pto={pto}/nf={nf}", case, sy)
+    # history: ONE manager asked for a sequence of flavour numbers answers each with the
+    # beta coefficients and operators of that flavour number (no stale memo)
+    class BetaNf:
+        def beta_qcd_as2(self_, nf):
+            return sy.U("beta0", int(nf))
+
+        def beta_qcd_as3(self_, nf):
+            return sy.U("beta1", int(nf))
+
+    for pto in (2, 3):
+        rep.cases += 1
+
+        def case_seq(sy, pto=pto):
+            beta = BetaNf()
+            seq = (3, 4, 5, 6, 4, 3)
+            out = []
+            with rebind(*binds(sy, beta)):
+                m = sv.ScaleVariations(order=pto, interpolator=None, activate_ren=True, activate_fact=True)
+                for table in split.raw_labels:
+                    for lab in table:
+                        for nf in set(seq):
+                            a = np.empty((1, 1), dtype=object)
+                            a[0, 0] = sy.U("M", lab, nf)
+                            m.operators[(lab, nf)] = a
+                for step, nf in enumerate(seq):
+                    got = m.ren_coeffs(nf)
+                    b0, b1 = sy.U("beta0", nf), sy.U("beta1", nf)
+                    full = {(2, 1, 1): b0, (3, 1, 2): 2 * b0, (3, 1, 1): b1, (3, 2, 1): b0**2}
+                    for k, v in full.items():
+                        if k[0] <= pto:
+                            out.append((f"step{step}: ren_coeffs(nf={nf}){k}", got.get(k, 0), v))
+                    fm = m.fact_matrices(nf)
+                    out.append((f"step{step}: fact_matrices(nf={nf})[(1,1,0)] uses P_qq_0 of nf={nf}", fm[(1, 1, 0)][0][0, 0], sy.U("M", "P_qq_0", nf)))
+                    out.append((f"step{step}: fact_matrices(nf={nf})[(2,1,1)] uses beta0 of nf={nf}", fm[(2, 1, 1)][0][0, 0], sy.U("M", "P_qq_0", nf) - b0))
+            return out
+
+        rep.check(f"C05/history/one manager, nf sequence 3,4,5,6,4,3/pto={pto}", case_seq, sy)
     rep.sample({"table": "sector_mapping[(2,2,0)][(100,21)] == (P_qq_0P_qg_0 + P_qg_0P_gg_0 - beta0 P_qg_0)/2 as formal operators, for symbolic beta0"})
 
 
